@@ -39,7 +39,9 @@ VARIABLES c, prev, slots, input, pc
 vars == <<c, prev, slots, input, pc>>
 SE == INSTANCE SequencesExt
 CaseSeq == SE!SetToSeq(Cases)
-Init == /\ c \in {CaseSeq[k] : k \in {j \in 1..Len(CaseSeq) : j % NShards = Shard}}
+\* (the sequence is handed over as an ARGUMENT: TLC evaluates an argument once, a definition indexed inside a set constructor every time)
+ShardOf(seq) == {seq[k] : k \in {j \in 1..Len(seq) : j % NShards = Shard}}
+Init == /\ c \in ShardOf(CaseSeq)
         /\ prev \in Modes \cup {"none"}
         /\ slots = SlotsOf(c.shape) /\ input = "original" /\ pc = "start"
 
